@@ -89,7 +89,7 @@ func runForever(w io.Writer, stats map[string]int) {
 			select {
 			case r := <-ret:
 				obs["outcome"] = r
-			case <-time.After(7 * time.Second):
+			case <-time.After(12 * time.Second):
 				obs["outcome"] = "running"
 			}
 			obs["scans"] = h.rec.n
